@@ -854,6 +854,12 @@ func (w *worker) runPath(item workItem) (res PathResult) {
 		t.initSched()
 		t.setModel(Model{})
 		t.runInit()
+		// warm-up of lazily built std tables so that paths do not rebuild them
+		if p := eng.prog.ImportedPackage("hash/crc64"); p != nil {
+			if f := p.Func("buildSlicing8TablesOnce"); f != nil {
+				t.call(nil, 0, f, nil)
+			}
+		}
 		w.tmpl = t
 	}
 	in.cloneInitFrom(w.tmpl)
